@@ -667,6 +667,18 @@ def real_hs(M, fn):
     return np.ascontiguousarray(h.real.astype(np.float64)), mx(h.imag)
 
 
+def requery(ctx, L):
+    """history step: after the projections / the exponential have been taken of this very object, ask it again - the
+    hooks judge every answer against the reference model of L.hs, so an answer that now reflects an earlier call
+    (a cached or overwritten matrix) is a violation of the ordinary oracles"""
+    for name in ("calc_k_mat", "calc_h_mat", "calc_j_mat", "is_cp", "is_tp", "is_physical", "calc_k_part", "calc_d_part"):
+        ok, val = ctx.attempt(getattr(L, name))
+        if not ok and name.startswith("calc"):
+            ctx.violation(f"{name}:second-call:" + ctx.exc_key(val), {})
+    ctx.attempt(L.calc_proj_ineq_constraint)
+    ctx.count("history:requery-after-projection")
+
+
 def exercise(ctx, hsx, Jd, elm, L, M, inp, tag):
     """extraction, round trip, parts, projections, exponential for one generator object"""
     d = M.d
@@ -724,6 +736,7 @@ def exercise(ctx, hsx, Jd, elm, L, M, inp, tag):
     if not okq:
         ctx.violation("calc_proj_eq_constraint:" + ctx.exc_key(pe), {"tag": tag})
     ctx.attempt(L.calc_proj_ineq_constraint)  # exceptions are judged by the on_exc hook
+    requery(ctx, L)
     # exponential
     okg, g = ctx.attempt(L.to_gate)
     if not okg and not isinstance(g, ValueError):
@@ -915,6 +928,7 @@ def run_verdict(ctx, hsx, Jd, M, c_sys, shape):
             if not okq:
                 ctx.violation("calc_proj_eq_constraint:" + ctx.exc_key(pe), {"viol": viol})
             ctx.attempt(L.calc_proj_ineq_constraint)  # exceptions are judged by the on_exc hook
+            requery(ctx, L)
     finally:
         Settings.set_atol(default_atol)
 
